@@ -1,4 +1,5 @@
 import Nstd.Sync.LiveSem
+import Nstd.Sync.LiveSemPoll
 import Nstd.Sync.LiveSignal
 import Nstd.Sync.LiveMonitor
 /-! Concrete fair runs meeting the hypotheses of the liveness theorems (non-vacuity): a short schedule after which
@@ -19,6 +20,56 @@ def Sem.demoRun : Run Sem.St Sem.Op Sem.step where
     | 0 => rfl
     | 1 => rfl
     | k + 2 => rfl
+
+/-! a run through the ENOSYS polling fallback: ENOSYS at a timed wait of 5 ms on an empty semaphore, one poll, one sleep of
+    10 ms, false; then only time passes (1 ns per step, for ever) -/
+def Sem.p0 : Sem.St := Sem.init 0 0 0 1
+def Sem.p1 : Sem.St := (Sem.step Sem.p0 1 (.call (.twait 5))).getD Sem.p0
+def Sem.p2 : Sem.St := (Sem.step Sem.p1 1 (.run 3)).getD Sem.p0
+def Sem.p3 : Sem.St := (Sem.step Sem.p2 1 (.run 0)).getD Sem.p0
+def Sem.p4 : Sem.St := (Sem.step Sem.p3 0 (.tick 10000000)).getD Sem.p0
+def Sem.p5 : Sem.St := (Sem.step Sem.p4 1 (.run 0)).getD Sem.p0
+theorem some_getD_of_isSome {α : Type} (o : Option α) (d : α) (h : o.isSome = true) : o = some (o.getD d) := by
+  cases o <;> simp_all
+theorem Sem.p4pc : Sem.p4.pc 1 = .pollSleep (mkDeadline 0 5) 0 10000000 := by
+  simp [Sem.p4, Sem.p3, Sem.p2, Sem.p1, Sem.p0, Sem.step, Sem.init, Sem.goto, upd, Sem.Poll.start, Sem.Poll.sleepUs,
+    Nstd.Generated.SyncSemPoll.start, Nstd.Generated.SyncSemPoll.sleepUs, mkDeadline]
+theorem Sem.p4now : Sem.p4.now = 10000000 := by
+  simp [Sem.p4, Sem.p3, Sem.p2, Sem.p1, Sem.p0, Sem.step, Sem.init, Sem.goto, upd, Sem.Poll.start, Sem.Poll.sleepUs,
+    Nstd.Generated.SyncSemPoll.start, Nstd.Generated.SyncSemPoll.sleepUs, mkDeadline]
+theorem Sem.p34 : Sem.step Sem.p3 0 (.tick 10000000) = some Sem.p4 := by simp [Sem.p4, Sem.step]
+theorem Sem.p45 : Sem.step Sem.p4 1 (.run 0) = some Sem.p5 := by
+  apply some_getD_of_isSome
+  simp only [Sem.step, Sem.p4pc, Sem.p4now]
+  simp
+  split <;> rfl
+theorem Sem.p4idle (t : Tid) (ht : t ≠ 1) : Sem.p4.pc t = .idle := by
+  simp [Sem.p4, Sem.p3, Sem.p2, Sem.p1, Sem.p0, Sem.step, Sem.init, Sem.goto, upd, ht, Sem.Poll.start,
+    Nstd.Generated.SyncSemPoll.start, mkDeadline]
+theorem Sem.p5idle (t : Tid) : Sem.p5.pc t = .idle := by
+  have h := Sem.p45
+  simp only [Sem.step, Sem.p4pc, Sem.p4now] at h
+  have hs : ¬ (Sem.Poll.stepMs < (mkDeadline 0 5).ms) := by decide
+  simp only [Nat.zero_add, Nat.le_refl, and_self, if_true, hs, if_false, Sem.done, Option.some.injEq] at h
+  rw [← h]
+  by_cases ht : t = 1
+  · simp [upd, ht]
+  · simp [upd, ht, Sem.p4idle t ht]
+def Sem.pollRun : Run Sem.St Sem.Op Sem.step where
+  st := fun k => match k with | 0 => Sem.p0 | 1 => Sem.p1 | 2 => Sem.p2 | 3 => Sem.p3 | 4 => Sem.p4 | k + 5 => { Sem.p5 with now := Sem.p5.now + k }
+  who := fun k => match k with | 0 => 1 | 1 => 1 | 2 => 1 | 3 => 0 | 4 => 1 | _ => 0
+  act := fun k => match k with | 0 => .call (.twait 5) | 1 => .run 3 | 2 => .run 0 | 3 => .tick 10000000 | 4 => .run 0 | _ => .tick 1
+  ok := by
+    intro n
+    match n with
+    | 0 => rfl
+    | 1 => rfl
+    | 2 => rfl
+    | 3 => exact Sem.p34
+    | 4 => exact Sem.p45
+    | k + 5 =>
+      show Sem.step { Sem.p5 with now := Sem.p5.now + k } 0 (.tick 1) = some { Sem.p5 with now := Sem.p5.now + (k + 1) }
+      simp [Sem.step, Nat.add_assoc]
 
 def Signal.d0 : Signal.St := Signal.init false 0 0
 def Signal.d1 : Signal.St := (Signal.step Signal.d0 1 (.call .wait)).getD Signal.d0
